@@ -112,7 +112,15 @@ var headerWords = []string{
 }
 
 // genHeaderValue builds values with word lengths 0..300, multiple/leading/trailing blanks
+// values that consist of nothing but well-formed encoded-words, separated by blanks, folds or bare line breaks
+var encodedWordOnly = []string{"=?UTF-8?q?Quarterly_report?=", "=?UTF-8?q?one?= =?UTF-8?q?two?=", "=?UTF-8?q?one?=\r\n =?UTF-8?q?two?=",
+	"=?UTF-8?q?one?=\r\n\r\n=?UTF-8?q?body?=", "=?UTF-8?q?one?=\r\n=?UTF-8?q?X-Injected:?= =?UTF-8?q?1?=", "=?utf-8?b?w6Q=?=\n=?utf-8?b?w7Y=?=",
+	"=?ISO-8859-1?q?caf=E9?=\r=?us-ascii?q?x?=", "=?UTF-8?q?a?=\t=?UTF-8?q?b?=", "=?UTF-8?q?a?=\r\n\t=?UTF-8?q?b?="}
+
 func genHeaderValue(r *Rng) string {
+	if r.Chance(4) {
+		return encodedWordOnly[r.Intn(len(encodedWordOnly))]
+	}
 	var sb strings.Builder
 	n := r.Intn(12)
 	if r.Chance(10) {
